@@ -682,6 +682,9 @@ func genLongRun(n int, r *Rng, emit func(Case)) {
 		ver := allVers[(i/2)%3]
 		m := r.Range(2, 5)
 		d := r.Intn(10)
+		if i%3 == 1 {
+			d = 0 // a run of zeros
+		}
 		pat := make([]int, m)
 		for k := range pat {
 			pat[k] = d
